@@ -115,4 +115,102 @@ class C17c(Obligation):
         ctx.check(len(both.value) == len(toks) and len(none.value) == 0, 'nothing else is reported')
 
 
-OBLIGATIONS = [C17a, C17b, C17c]
+import ast  # noqa: E402
+import io  # noqa: E402
+import keyword  # noqa: E402
+import tokenize  # noqa: E402
+
+import jedi  # noqa: E402
+from jedi.inference.names import TreeNameDefinition  # noqa: E402
+
+BINDING_CORPUS = [
+    '''import os
+from mod import thing
+
+def func(a, b=1, *args, key=None, **kw):
+    local = a + b
+    table = {}
+    table[a] = local
+    table[b] += 1
+    for i, item in enumerate(args):
+        table[i], extra = item, i
+    with open(a) as handle:
+        handle.write(key)
+    total = [n for n in args if n]
+    total += [len(kw)]
+    if (found := os.sep):
+        return func(a=found, b=thing)
+    return total
+
+class Box(object):
+    size = 3
+
+    def grow(self, by):
+        grown = self.size + by
+        rows = [[0]]
+        rows[0][0] = by
+        return rows
+
+result = Box()
+''',
+]
+
+
+def binding_positions(src):
+    """positions (line, col) of the identifier tokens that bind a name, according to CPython's ast"""
+    tree = ast.parse(src)
+    toks = [t for t in tokenize.generate_tokens(io.StringIO(src).readline) if t.type == tokenize.NAME]
+    binds = set()
+    for node in ast.walk(tree):
+        if isinstance(node, ast.Name) and isinstance(node.ctx, ast.Store):
+            binds.add((node.lineno, node.col_offset))
+        elif isinstance(node, ast.arg):
+            binds.add((node.lineno, node.col_offset))
+        elif isinstance(node, (ast.FunctionDef, ast.AsyncFunctionDef, ast.ClassDef)):
+            kw = [i for i, t in enumerate(toks) if t.start >= (node.lineno, node.col_offset)
+                  and t.string in ('def', 'class')][0]
+            binds.add(toks[kw + 1].start)
+        elif isinstance(node, (ast.Import, ast.ImportFrom)):
+            for alias in node.names:
+                binds.add((alias.lineno, alias.col_offset))
+    idents = [(t.start[0], t.start[1], t.end[1], t.string) for t in toks if not keyword.iskeyword(t.string)]
+    return idents, binds
+
+
+class C17d(Obligation):
+    id = 'C17.d'
+    title = 'is_definition() is true exactly for the identifier tokens that bind (subscript stores do not bind)'
+    pattern = 'P4 concrete tree x symbolic cursor; reference from CPython ast'
+    interpret_modules = ('jedi', 'parso', 'obligations')
+    loop_bound = 400
+    max_paths = 4000
+    assumptions = (
+        'a corpus file is parsed natively; (line, column) are unconstrained integers resolved to a token by the '
+        'interpreted parso get_leaf_for_position; domain: positions on identifier tokens; binding tokens from ast '
+        '(Store names, parameters, def/class names, import names); attribute stores, del and global are not in the corpus',
+    )
+
+    def scenario(self, ctx, cfg):
+        src = BINDING_CORPUS[0]
+        script = jedi.Script(src)
+        line = ctx.int('line')
+        column = ctx.int('column')
+        idents, binds = binding_positions(src)
+        # cursor semantics of parso: a position belongs to the token it is inside of or directly behind
+        on = [ctx.And(line == l, c0 < column, column <= c1) for l, c0, c1, s in idents]
+        ctx.assume(ctx.Or(*on))
+        leaf = ctx.run(script._module_node.get_leaf_for_position, (line, column))
+        ctx.check(leaf is not None and leaf.type == 'name', 'an identifier position resolves to a name token')
+        if leaf is None or leaf.type != 'name':
+            return
+        name = classes.Name(script._inference_state, TreeNameDefinition(script._get_module_context(), leaf))
+        out = ctx.call(name.is_definition)
+        ctx.check(out.exc is None, 'never raises')
+        if out.exc is not None:
+            return
+        expected = leaf.start_pos in binds
+        ctx.observe((leaf.value, leaf.start_pos, out.value), 'token')
+        ctx.check(out.value == expected, 'is_definition() <=> the token binds a name (ast)')
+
+
+OBLIGATIONS = [C17a, C17b, C17c, C17d]
